@@ -72,6 +72,7 @@ static ppointer va_malloc(psize n) {
 	p = malloc(n);
 	if (p) { va_insert(p, n); va_total_alloc++; }
 	pthread_mutex_unlock(&va_mu);
+	if (p) memset(p, 0xA5, n);        /* fresh blocks are never zero: a field the library forgets to initialise shows (p_malloc0 zeroes on its own) */
 	return p;
 }
 static void va_free(ppointer p) {
@@ -80,8 +81,9 @@ static void va_free(ppointer p) {
 	pthread_mutex_lock(&va_mu);
 	b = va_find(p);
 	if (!b) { va_bad_free++; pthread_mutex_unlock(&va_mu); return; }   /* double / foreign free: recorded, not forwarded */
-	b->addr = VA_TOMB; va_live--; va_tomb++; va_total_free++;
-	pthread_mutex_unlock(&va_mu);
+	{ size_t sz = b->size; b->addr = VA_TOMB; va_live--; va_tomb++; va_total_free++;
+	  pthread_mutex_unlock(&va_mu);
+	  memset(p, 0x5A, sz); }            /* stale reads of a released block see garbage also in builds without a sanitizer */
 	free(p);
 }
 static ppointer va_realloc(ppointer p, psize n) {
